@@ -5,8 +5,8 @@ import random
 from . import lib
 from .simlib import SimCheck
 
-SCRIPT_SET = ('{ [after |-> a, refuse |-> r, stall |-> s, fallAfter |-> f] : a \\in 0..2, r \\in BOOLEAN, '
-              's \\in BOOLEAN, f \\in {0, 1} }')
+SCRIPT_SET = ('{ [after |-> a, refuse |-> r, stall |-> s, fallAfter |-> f, silent |-> FALSE] : a \\in 0..2, r \\in BOOLEAN, '
+              's \\in BOOLEAN, f \\in {0, 1} } \\cup {[after |-> 0, refuse |-> FALSE, stall |-> FALSE, fallAfter |-> 0, silent |-> TRUE]}')
 
 
 def dev(kind, tag):
@@ -14,13 +14,14 @@ def dev(kind, tag):
                 alias=0, tag=tag)
 
 
-def script(after=0, refuse=0, stall=False, fall=0, to=2):
-    return dict(accept_after_polls=after, refuse_with=refuse, stall=stall, fall_back_after=fall, fall_back_to=to)
+def script(after=0, refuse=0, stall=False, fall=0, to=2, silent=False):
+    return dict(accept_after_polls=after, refuse_with=refuse, stall=stall, fall_back_after=fall, fall_back_to=to, silent=silent)
 
 
 def single_stage_cases(prefix, ndev, groups, frame_data, rnd, limit):
     """PRE-OP -> SAFE-OP with every combination of scripts (sampled down to `limit`)."""
     opts = [script(a, r, s, f) for a in (0, 1, 2) for r in (0, 0x1D) for s in (False, True) for f in (0, 1)]
+    opts.append(script(silent=True))
     combos = list(itertools.product(range(len(opts)), repeat=ndev))
     rnd.shuffle(combos)
     # half of the sample without a device that refuses or stalls (else nearly every sampled case fails for that reason and
@@ -48,8 +49,10 @@ def random_cases(rnd, n):
                 scripts.append(script(rnd.randint(0, 6)))
             elif k < 0.75:
                 scripts.append(script(0, rnd.choice([0x11, 0x1D, 0x1E, 0x16])))
-            elif k < 0.85:
+            elif k < 0.82:
                 scripts.append(script(0, 0, True))
+            elif k < 0.87:
+                scripts.append(script(silent=True))
             else:
                 scripts.append(script(rnd.randint(0, 2), 0, False, rnd.randint(1, 3), rnd.choice([1, 2, 4])))
         out.append(dict(id=f"r{i}", devices=[dev(rnd.choice(["dio", "dio", "coupler"]) if k else "dio", k + 1)
@@ -80,7 +83,7 @@ def run(pid, tier):
               ("d4", 4, "{1, 2, 3, 4}", 3, 1, 32)]
     for name, ndev, members, per_frame, groups, frame_data in shapes:
         mod = f"---- MODULE AlStateMC_{name} ----\nEXTENDS AlState\nMCScripts == {SCRIPT_SET}\n====\n"
-        consts = dict(NDev=ndev, Members=members, PerFrame=per_frame, MaxRounds=6, From=2, Target=4)
+        consts = dict(NDev=ndev, Members=members, PerFrame=per_frame, MaxRounds=6, From=2, Target=4, PerDeviceCheck=True)
         cfg = lib.cfg_text(init="AsInit", next_="AsNext", constants=consts, invariants=inv).replace(
             "CONSTANTS\n", "CONSTANTS\n  Scripts <- MCScripts\n")
         if ndev == 4 and q:
@@ -90,15 +93,15 @@ def run(pid, tier):
         sc.mc(name, f"AlStateMC_{name}", cfg, extra_module=(f"AlStateMC_{name}", mod))
         cases = single_stage_cases(name, ndev, groups, frame_data, rnd, 600 if q else 8000)
         trace = sc.run_cases(name, cases)
-        tconst = dict(NDev=ndev, Members=members, PerFrame=per_frame, MaxRounds=12, From=2, Target=4, Scripts="{}")
+        tconst = dict(NDev=ndev, Members=members, PerFrame=per_frame, MaxRounds=12, From=2, Target=4, Scripts="{}", PerDeviceCheck=True)
         sc.validate(name, trace, "AlStateTrace", tconst,
                     key_fn=lambda c: (c["case"]["target"], tuple((s["accept_after_polls"], s["refuse_with"], s["stall"],
-                                      s["fall_back_after"]) for s in c["case"]["scripts"]), c["result"]),
+                                      s["fall_back_after"], s.get("silent", False)) for s in c["case"]["scripts"]), c["result"]),
                     sample_fn=lambda c: c["result"] != "ok")
     cases = random_cases(rnd, 400 if q else 20000)
     trace = sc.run_cases("random", cases)
     sc.validate("random", trace, "AlStateTrace", dict(NDev=1, Members="{1}", PerFrame=1, MaxRounds=1, From=2, Target=4,
-                                                      Scripts="{}"),
+                                                      Scripts="{}", PerDeviceCheck=True),
                 key_fn=lambda c: (c["case"]["target"], len(c["case"]["devices"]), c["case"]["groups"],
                                   c["case"]["frame_data"], c["result"], tuple(c.get("al_after", []))))
     # the summaries clause, with devices that do not answer
